@@ -17,6 +17,10 @@ class ModelError(Exception):
         self.path = path
 
 
+class OutOfDomain(Exception):
+    """the statement does not pin the outcome down for this input (see DESIGN.md restrictions)"""
+
+
 class R:
     """resolved node: flags made effective"""
     __slots__ = ('kind', 'prio', 'xdel', 'dele', 'v', 'ch', 'md', 'stage', 'xnew', 'anew', 'vdel', 'tag')
@@ -90,7 +94,7 @@ def resolve(n, stage=0, inh_prio=None, inh_del=None, inh_new=None):
     r.anew = True if inh_new is None else inh_new
     if t in ('map', 'seq'):
         # what children inherit: explicit flag, else (type default or inherited)
-        cdel = xdel if xdel is not None else (True if t == 'seq' else inh_del)
+        cdel = xdel if xdel is not None else (inh_del if inh_del is not None else (True if t == 'seq' else None))
         cnew = r.xnew if r.xnew is not None else inh_new
         if t == 'map':
             r.ch = {k: resolve(c, stage, prio, cdel, cnew) for k, c in n['items']}
@@ -153,22 +157,26 @@ def require_all_new(r, path, exceptions=(), include_self=True):
             raise ModelError('MergeError', f'node {p!r} requires that the destination exists', p)
 
 
-def merge(O, N, path=()):
+def merge(O, N, path=(), strict_domain=False):
     """merge newer N onto older O (both R); returns the resulting node"""
-    if N.kind == 'clear':
-        # premerge: the older node must exist and be a container; it is emptied and keeps everything else
-        if not O.composed():
-            raise ModelError('PremergeError', f'!clear at {path!r} has no container to empty', path)
-        O.ch = {} if O.kind == 'map' else []
-        return O
+    if O is N:
+        return O                 # a node moved over by a premerge operator meets itself
     if not (O.composed() and N.composed()):
+        if strict_domain:
+            win, lose = (O, N) if O.prio > N.prio else (N, O)
+            if lose.composed() and any(x.prio > win.prio for _, x in walk(lose)):
+                raise OutOfDomain('a scalar/container conflict would discard higher-priority entries')
         if O.prio > N.prio:
             O.md = {**N.md, **O.md}
             return O
         N.md = {**O.md, **N.md}
         return N
     if O.kind == 'seq' and N.kind == 'map':
+        if strict_domain and N.dele:
+            raise OutOfDomain('a deleting mapping addressing list indices: which indices survive the deletion is not specified')
         n = len(O.ch)
+        if strict_domain and len({(k + n if isinstance(k, int) and k < 0 else k) for k in N.ch}) != len(N.ch):
+            raise OutOfDomain('two keys of one mapping address the same list element')
         for k in N.ch:
             if isinstance(k, bool) or not isinstance(k, int) or not (-n <= k < n):
                 raise ModelError('MergeError', f'mapping key {k!r} does not address an existing index of the list at {path!r}', path)
@@ -185,6 +193,8 @@ def merge(O, N, path=()):
     for k, v in N.items():
         child = O.get(k)
         if child is None:
+            if strict_domain and v.vdel:
+                raise OutOfDomain('value-less !del aimed at a key that does not exist')
             require_all_new(v, path + (k,))
             if O.kind == 'map':
                 O.ch[k] = v
@@ -193,7 +203,7 @@ def merge(O, N, path=()):
             continue
         kk = k if O.kind == 'map' else (k if k >= 0 else len(O.ch) + k)
         was_composed = child.composed()
-        r = merge(child, v, path + (k,))
+        r = merge(child, v, path + (k,), strict_domain)
         if was_composed:
             if r.falsy() and not (r.prio > v.prio) and v.xdel:
                 _remove(O, kk)
@@ -224,12 +234,45 @@ def _set(O, k, r):
     O.ch[k] = r
 
 
-def build(docs):
+def lookup(root, path):
+    """exact look-up by child names (list children are named 0..n-1: no negative indices)"""
+    cur = root
+    for c in path:
+        if not cur.composed() or (cur.kind == 'seq' and (isinstance(c, bool) or not isinstance(c, int) or c < 0)):
+            return None
+        cur = cur.get(c)
+        if cur is None:
+            return None
+    return cur
+
+
+def premerge_clear(acc, n, path=()):
+    """!clear acts before the stage is merged: the older node at its path is emptied and *moved* into the newer tree"""
+    if not n.composed():
+        return
+    for k, c in n.items():
+        if c.kind == 'clear':
+            tgt = lookup(acc, path + (k,))
+            if tgt is None:
+                raise ModelError('PremergeError', f'!clear at {path + (k,)!r}: nothing there', path + (k,))
+            if not tgt.composed():
+                raise ModelError('PremergeError', f'!clear at {path + (k,)!r}: not a container', path + (k,))
+            tgt.ch = {} if tgt.kind == 'map' else []
+            n.ch[k] = tgt
+        else:
+            premerge_clear(acc, c, path + (k,))
+
+
+def build(docs, strict_domain=False):
     """model of Builder.build for documents without premerge operators other than !clear"""
     acc = resolve(docs[0], 0)
+    if any(n.kind == 'clear' for _, n in walk(acc)):
+        raise ModelError('PremergeError', '!clear in a first document')
     require_all_new(acc, ())
     for i, d in enumerate(docs[1:], 1):
-        acc = merge(acc, resolve(d, i), ())
+        n = resolve(d, i)
+        premerge_clear(acc, n)
+        acc = merge(acc, n, (), strict_domain)
     return acc
 
 
